@@ -76,7 +76,35 @@ def corpus():
             q.append(['factor', [[0, a, '1']], [[0, b, '1']]])
             q.append(['equiv', [[0, a, '1']], [[0, b, '1']]])
             q.append(['convert', '5', [[0, a, '1']], [[0, b, '1']]])
-    return [{'family': fam, 'queries': q, 'sample': [[[0, n, '1']] for n in names], 'triples': [[0, 1, 2], [3, 4, 5]]}]
+    cases = [{'family': fam, 'queries': q, 'sample': [[[0, n, '1']] for n in names], 'triples': [[0, 1, 2], [3, 4, 5]]}]
+    # model = code on the inputs where the hand model of add_unit used to deviate (notes/reports/MODELFIX_Units.md):
+    # pint evaluates EVERY identifier of the expression, so an unknown name is an UndefinedUnitError also where its
+    # total exponent is zero, and the unit is NOT defined afterwards (get_unit: KeyError); a known name to the power
+    # zero gives a dimensionless unit of scale one; the name is tested before the expression is evaluated.
+    fam0 = {'stores': [None, 0], 'defs': [
+        {'kind': 'def', 'store': 0, 'name': 'z_unknown', 'elems': [{'units': 'nosuch', 'exponent': '0'}]},
+        {'kind': 'def', 'store': 0, 'name': 'z_known', 'elems': [{'units': 'metre', 'exponent': '0'}]},
+        {'kind': 'def', 'store': 0, 'name': 'z_cancel', 'elems': [{'units': 'nosuch'}, {'units': 'nosuch', 'exponent': '-1'}]},
+        {'kind': 'def', 'store': 0, 'name': 'z_mixed', 'elems': [{'units': 'volt', 'prefix': 'milli'},
+                                                                  {'units': 'nosuch', 'exponent': '0.0'}]},
+        {'kind': 'base', 'store': 1, 'name': 'widget'},
+        {'kind': 'def', 'store': 1, 'name': 'z_widget', 'elems': [{'units': 'widget', 'exponent': '0'}]},   # known to store 1
+        {'kind': 'def', 'store': 0, 'name': 'z_other', 'elems': [{'units': 'widget', 'exponent': '0'}]},    # not to store 0
+        {'kind': 'def', 'store': 0, 'name': 'metre', 'elems': [{'units': 'second', 'exponent': 'x'}]},      # name first
+        {'kind': 'def', 'store': 0, 'name': 'z_known', 'elems': [{'units': 'nosuch', 'exponent': '0'}]},    # name first
+        {'kind': 'def', 'store': 0, 'name': 'z_mV', 'elems': [{'units': 'volt', 'prefix': 'milli'},
+                                                               {'units': 'second', 'exponent': '0'}]},
+    ]}
+    q0 = []
+    names0 = [(0, 'z_unknown'), (0, 'z_known'), (0, 'z_cancel'), (0, 'z_mixed'), (1, 'z_widget'), (0, 'z_other'),
+              (0, 'z_mV'), (0, 'dimensionless'), (0, 'volt')]
+    for sa, a in names0:
+        q0.append(['root', [[sa, a, '1']]])
+        for sb, b in names0:
+            q0.append(['factor', [[sa, a, '1']], [[sb, b, '1']]])
+            q0.append(['equiv', [[sa, a, '1']], [[sb, b, '1']]])
+    cases.append({'family': fam0, 'queries': q0, 'sample': [[[s, n, '1']] for s, n in names0], 'triples': [[1, 4, 7]]})
+    return cases
 
 
 # ---------------------------------------------------------------------------------------------- implementation
